@@ -472,8 +472,10 @@ func runScenario(r *ev.Run, id caseID) {
 		for i := 0; i < 5; i++ {
 			victim := i % 3
 			next := (victim + 1) % 3
-			stallNode.Store(int64(next + 1))
-			stall.Store(int64(60 + g.Intn(120)))
+			_ = next
+			stallNode.Store(0) // whichever node takes over, its replica lags
+			stall.Store(int64(120 + g.Intn(200)))
+			time.Sleep(150 * time.Millisecond)
 			f.StopManager(victim)
 			time.Sleep(time.Duration(500+g.Intn(300)) * time.Millisecond)
 			stall.Store(0)
@@ -586,6 +588,9 @@ func runScenario(r *ev.Run, id caseID) {
 			sig := "follower-state-is-not-leader-state-at-recorded-index"
 			if id.Scenario == "slow-apply" {
 				sig = "follower-state-is-not-leader-state-at-recorded-index@proposal-timeout-with-slow-apply"
+			}
+			if id.Scenario == "lease-handover" {
+				sig = "follower-state-is-not-leader-state-at-recorded-index@lease-handover"
 			}
 			w.What = fmt.Sprintf("[%s] table %s: follower records leader index %d but %s", id.Scenario, s.table, s.li, why)
 			w.Writes = around(byTable[s.table], s.li)
